@@ -49,7 +49,15 @@ func leafString(v interface{}) string {
 	return ""
 }
 
+// keyNames maps the model's keys to concrete names; in naming 1 one sibling is a string PREFIX of the other
+// ("item1" / "item10"), which sorted-key writers must not confuse with a dotted-path prefix
+var keyNames = []map[string]string{{"a": "a", "b": "b", "c": "c"}, {"a": "item1", "b": "item10", "c": "item"}}
+
 func buildNested(n pmNode, i *int) (interface{}, error) {
+	return buildNestedNamed(n, i, 0)
+}
+
+func buildNestedNamed(n pmNode, i *int, naming int) (interface{}, error) {
 	if n.Leaf != "" {
 		*i++
 		return leafValue(n.Leaf, *i), nil
@@ -62,14 +70,22 @@ func buildNested(n pmNode, i *int) (interface{}, error) {
 	// deterministic order for the leaf counter
 	for _, k := range []string{"a", "b", "c"} {
 		if kid, ok := kids[k]; ok {
-			v, err := buildNested(kid, i)
+			v, err := buildNestedNamed(kid, i, naming)
 			if err != nil {
 				return nil, err
 			}
-			out[k] = v
+			out[keyNames[naming][k]] = v
 		}
 	}
 	return out, nil
+}
+
+func renamed(path []string, naming int) []string {
+	out := make([]string, len(path))
+	for i, p := range path {
+		out[i] = keyNames[naming][p]
+	}
+	return out
 }
 
 func lookup(m map[string]interface{}, path []string) interface{} {
@@ -175,74 +191,77 @@ func cmdPlainCases(args []string) error {
 		if len(samples) < 2 && len(c.Flat) >= 3 {
 			samples = append(samples, inner)
 		}
-		cnt := 0
-		nv, err := buildNested(c.Nested, &cnt)
-		if err != nil {
-			return err
-		}
-		nested := nv.(map[string]interface{})
-		// (i) Flatten / Rebuild
-		flat, err := plainmap.RecursiveMapToPlainMap(nested)
-		if err != nil {
-			fail("flatten-error", inner, err.Error())
-			continue
-		}
-		if len(flat) != len(c.Flat) {
-			fail("flatten", inner, fmt.Sprintf("flattened to %d keys, specification %d: %v", len(flat), len(c.Flat), flat))
-			continue
-		}
-		okFlat := true
-		for _, fe := range c.Flat {
-			if !reflect.DeepEqual(flat[strings.Join(fe.Path, ".")], lookup(nested, fe.Path)) {
-				okFlat = false
+	namings:
+		for naming := 0; naming < len(keyNames); naming++ {
+			cnt := 0
+			nv, err := buildNestedNamed(c.Nested, &cnt, naming)
+			if err != nil {
+				return err
 			}
-		}
-		if !okFlat {
-			fail("flatten", inner, fmt.Sprintf("flattened map %v does not hold the leaves at the specification's dotted keys", flat))
-			continue
-		}
-		rebuilt, err := plainmap.ToRecursiveMap(flat)
-		if err != nil || !reflect.DeepEqual(rebuilt, nested) {
-			fail("rebuild", inner, fmt.Sprintf("ToRecursiveMap(Flatten(m)) = %v (err %v), m = %v", rebuilt, err, nested))
-			continue
-		}
-		// (ii) the JSON reader keeps string and number leaves, with the value a standard decoder yields
-		js, _ := json.Marshal(nested)
-		got, err := plainmap.JSONToPlainStringMap(js)
-		if err != nil {
-			fail("read-error", inner, err.Error())
-			continue
-		}
-		dec := json.NewDecoder(bytes.NewReader(js))
-		dec.UseNumber()
-		var std map[string]interface{}
-		dec.Decode(&std)
-		if len(got) != len(c.Readable) {
-			fail("read-leaves", inner, fmt.Sprintf("JSON %s read as %d keys %v, specification: %d string/number leaves", js, len(got), got, len(c.Readable)))
-			continue
-		}
-		for _, fe := range c.Readable {
-			want := leafString(lookup(std, fe.Path))
-			if got[strings.Join(fe.Path, ".")] != want {
-				fail("read-value", inner, fmt.Sprintf("key %s read as %q, the standard decoder yields %q (JSON %s)", strings.Join(fe.Path, "."), got[strings.Join(fe.Path, ".")], want, js))
-				break
+			nested := nv.(map[string]interface{})
+			// (i) Flatten / Rebuild
+			flat, err := plainmap.RecursiveMapToPlainMap(nested)
+			if err != nil {
+				fail("flatten-error", inner, err.Error())
+				continue namings
 			}
-		}
-		// (iii) flat string map -> JSON -> flat string map, and the nested form a standard decoder sees
-		js2, err := plainmap.PlainStringMapToJSON(got)
-		if err != nil {
-			fail("write-error", inner, err.Error())
-			continue
-		}
-		back, err := plainmap.JSONToPlainStringMap([]byte(js2))
-		if err != nil || !reflect.DeepEqual(back, got) {
-			fail("roundtrip-map", inner, fmt.Sprintf("map %v written as %s read back as %v (err %v)", got, js2, back, err))
-			continue
-		}
-		sm, err := plainmap.StringMapToRecursiveMap(got)
-		var std2 map[string]interface{}
-		if err != nil || json.Unmarshal([]byte(js2), &std2) != nil || !reflect.DeepEqual(sm, std2) {
-			fail("string-rebuild", inner, fmt.Sprintf("StringMapToRecursiveMap = %v, the standard decoder reads %v from %s", sm, std2, js2))
+			if len(flat) != len(c.Flat) {
+				fail("flatten", inner, fmt.Sprintf("flattened to %d keys, specification %d: %v", len(flat), len(c.Flat), flat))
+				continue namings
+			}
+			okFlat := true
+			for _, fe := range c.Flat {
+				if !reflect.DeepEqual(flat[strings.Join(renamed(fe.Path, naming), ".")], lookup(nested, renamed(fe.Path, naming))) {
+					okFlat = false
+				}
+			}
+			if !okFlat {
+				fail("flatten", inner, fmt.Sprintf("flattened map %v does not hold the leaves at the specification's dotted keys", flat))
+				continue namings
+			}
+			rebuilt, err := plainmap.ToRecursiveMap(flat)
+			if err != nil || !reflect.DeepEqual(rebuilt, nested) {
+				fail("rebuild", inner, fmt.Sprintf("ToRecursiveMap(Flatten(m)) = %v (err %v), m = %v", rebuilt, err, nested))
+				continue namings
+			}
+			// (ii) the JSON reader keeps string and number leaves, with the value a standard decoder yields
+			js, _ := json.Marshal(nested)
+			got, err := plainmap.JSONToPlainStringMap(js)
+			if err != nil {
+				fail("read-error", inner, err.Error())
+				continue namings
+			}
+			dec := json.NewDecoder(bytes.NewReader(js))
+			dec.UseNumber()
+			var std map[string]interface{}
+			dec.Decode(&std)
+			if len(got) != len(c.Readable) {
+				fail("read-leaves", inner, fmt.Sprintf("JSON %s read as %d keys %v, specification: %d string/number leaves", js, len(got), got, len(c.Readable)))
+				continue namings
+			}
+			for _, fe := range c.Readable {
+				want := leafString(lookup(std, renamed(fe.Path, naming)))
+				if got[strings.Join(renamed(fe.Path, naming), ".")] != want {
+					fail("read-value", inner, fmt.Sprintf("key %s read as %q, the standard decoder yields %q (JSON %s)", strings.Join(renamed(fe.Path, naming), "."), got[strings.Join(renamed(fe.Path, naming), ".")], want, js))
+					break
+				}
+			}
+			// (iii) flat string map -> JSON -> flat string map, and the nested form a standard decoder sees
+			js2, err := plainmap.PlainStringMapToJSON(got)
+			if err != nil {
+				fail("write-error", inner, err.Error())
+				continue namings
+			}
+			back, err := plainmap.JSONToPlainStringMap([]byte(js2))
+			if err != nil || !reflect.DeepEqual(back, got) {
+				fail("roundtrip-map", inner, fmt.Sprintf("map %v written as %s read back as %v (err %v)", got, js2, back, err))
+				continue namings
+			}
+			sm, err := plainmap.StringMapToRecursiveMap(got)
+			var std2 map[string]interface{}
+			if err != nil || json.Unmarshal([]byte(js2), &std2) != nil || !reflect.DeepEqual(sm, std2) {
+				fail("string-rebuild", inner, fmt.Sprintf("StringMapToRecursiveMap = %v, the standard decoder reads %v from %s", sm, std2, js2))
+			}
 		}
 	}
 	out := map[string]interface{}{"executed": executed, "failures_by_key": byKey, "examples": examples, "samples": samples}
